@@ -103,6 +103,39 @@ pub fn prod_roundtrip(ctx: &Ctx, k: &Keys, pt: &[u8], enc_io: &Io, dec_io: &Io, 
 
 /// Round trips through the real binary, via files and pipes, onto fresh and onto already
 /// existing (longer) output paths: the decrypted bytes must be exactly the original.
+
+/// key_encrypt takes three optional arguments (ephemeral private key, ephemeral public key, payload key): every
+/// combination of given / not given is a legal way of calling it, and each must produce a file that decrypts to
+/// the plaintext and names the sender.
+fn optional_argument_forms(ctx: &Ctx) {
+    use crate::kio::{EHalves, E_HALVES};
+    let rounds = ctx.tier.pick(6, 120);
+    let mut rng = Rng::fork(ctx.seed, "C01-optargs");
+    for round in 0..rounds {
+        let k = fresh_keys(&mut rng);
+        let len = *rng.pick(&[0usize, 1, 13, 65536, 65537, 131072 + 5]);
+        let pt = rng.bytes(len);
+        for (halves, hname) in [(EHalves::Consistent, "both ephemeral halves"), (EHalves::PrivateOnly, "ephemeral private key only"), (EHalves::PublicOnly, "ephemeral public key only")] {
+            for e_given in [true, false] {
+                if !e_given && halves != EHalves::Consistent {
+                    continue;
+                }
+                for payload_given in [true, false] {
+                    let what = format!("{}, payload key {}", if e_given { hname } else { "no ephemeral key" }, if payload_given { "given" } else { "not given" });
+                    E_HALVES.with(|h| h.set(halves));
+                    let io = Io::new(Sched::all(), Sched::all());
+                    let ok = prod_roundtrip(ctx, &k, &pt, &io, &io, if e_given { Some(rng.arr32()) } else { None }, if payload_given { Some(rng.arr32()) } else { None }, &format!("optional-arguments:{}", what.replace(' ', "-").replace(',', "")));
+                    E_HALVES.with(|h| h.set(EHalves::Consistent));
+                    if ok {
+                        ctx.seen(&format!("optional argument form round-trips: {}", what));
+                        ctx.distinct(&format!("optargs|{}|{}|{}", round, what, len));
+                    }
+                }
+            }
+        }
+    }
+}
+
 fn cli_roundtrips(ctx: &Ctx) {
     use crate::cli::{keyring_text, Cmd, Exit, Ident, Stdin, WorkDir};
     let mut rng = Rng::fork(ctx.seed, "C01-cli");
@@ -382,6 +415,7 @@ pub fn run(ctx: &Ctx) {
         }
     });
     ctx.note("production_lengths", json!(lengths));
+    optional_argument_forms(ctx);
     if !crate::lib_only() {
         cli_roundtrips(ctx);
         cli_name_selection(ctx);
@@ -393,5 +427,6 @@ pub fn run(ctx: &Ctx) {
     ctx.require("cli round trip ok: pipes", 4);
     ctx.require("cli round trip ok: files, sender and recipient are the same key", 2);
     ctx.require("prod: chunks=", 50);
+    ctx.require("optional argument form round-trips", 40);
     ctx.require("small: chunks=", 500);
 }
